@@ -407,18 +407,22 @@ def aten_alpha_dropout(input: TensorType, p: float, train: bool) -> TensorType:
 
 
 @torch_op("aten::amax")
-def aten_amax(self: TRealOrUInt8, dim: INT64, keepdim: bool = False) -> TRealOrUInt8:
+def aten_amax(
+    self: TRealOrUInt8, dim: Optional[INT64] = None, keepdim: bool = False
+) -> TRealOrUInt8:
     """amax(Tensor self, int[1] dim=[], bool keepdim=False) -> Tensor"""
 
-    # ReduceMax reduces all dimensions when dim is empty
+    # ReduceMax reduces all dimensions when dim is empty or absent
     return op.ReduceMax(self, dim, keepdims=keepdim)
 
 
 @torch_op("aten::amin")
-def aten_amin(self: TRealOrUInt8, dim: INT64, keepdim: bool = False) -> TRealOrUInt8:
+def aten_amin(
+    self: TRealOrUInt8, dim: Optional[INT64] = None, keepdim: bool = False
+) -> TRealOrUInt8:
     """amin(Tensor self, int[1] dim=[], bool keepdim=False) -> Tensor"""
 
-    # ReduceMin reduces all dimensions when dim is empty
+    # ReduceMin reduces all dimensions when dim is empty or absent
     return op.ReduceMin(self, dim, keepdims=keepdim)
 
 
